@@ -43,7 +43,7 @@ def plan(tier, seed):
 
 
 def thresholds(tier):
-  t = {"contract_evaluations": 150000, "exhaustive_cases": 200000, "cells_seen": 90, "sim_contract_evaluations": 5000, "result_mutation_probes": 10000, "hash_after_update_probes": 2000}
+  t = {"contract_evaluations": 150000, "exhaustive_cases": 200000, "cells_seen": 90, "sim_contract_evaluations": 5000, "result_mutation_probes": 10000, "hash_after_update_probes": 2000, "struct_source_assignments": 60, "struct_source_assignments_refused": 5}
   if tier == "thorough":
     t.update({"contract_evaluations": 20000000, "sim_contract_evaluations": 100000})
   return t
@@ -328,6 +328,35 @@ def check_struct_operand(sh):
                      case=("structop-mirror", k)); return
 
 
+def check_struct_source(sh):
+  """@= / <<= from a bitstruct value: the target ends up inside [0, 2^n) - also when a field of the source was given a Bits of
+  another width beforehand (fields are plain attributes): refused, or the stored value is in range ( F-B7 )"""
+  from pymtl3.datatypes import mk_bits, mk_bitstruct
+  rng = sh.rng("structsrc")
+  for k in range(40):
+    wa, wb = rng.choice([1, 3, 4, 8]), rng.choice([1, 4, 5, 8])
+    T = mk_bitstruct(f"SS_{sh.idx}_{k}", {"a": mk_bits(wa), "b": mk_bits(wb)})
+    va, vb = rng.getrandbits(wa), rng.getrandbits(wb)
+    p_ = T(va, vb); n = wa + wb
+    how = rng.choice(["legal", "wider-field", "narrower-field"])
+    if how == "wider-field": p_.a = mk_bits(wa + rng.choice([1, 4]))(-1)
+    elif how == "narrower-field" and wa > 1: p_.a = mk_bits(wa - 1)(0)
+    elif how == "narrower-field": how = "legal"
+    for op in ("@=", "<<="):
+      x = mk_bits(n)(0)
+      sh.count("struct_source_assignments")
+      try:
+        if op == "@=": x @= p_
+        else: x <<= p_; x._flip()
+      except (ValueError, TypeError):
+        if how == "legal": sh.violation("legal-struct-assignment-refused", {"widths": [wa, wb], "operator": op}, case=("structsrc", k, op)); return
+        sh.count("struct_source_assignments_refused"); continue
+      v = x._uint
+      if not 0 <= v < (1 << n) or (how == "legal" and v != ((va << wb) | vb)):
+        sh.violation("stored-value-outside-the-width-after-assignment-from-a-bitstruct", {"target_nbits": n, "operator": op, "source": repr(p_), "how": how,
+                     "stored": hex(v)}, case=("structsrc", k, op)); return
+
+
 def check_rejected_assignments(sh):
   """an assignment that is REFUSED (int out of range, Bits of another width) leaves the object as it was: the value, and the pending
   value of an earlier legal <<= that the next flip commits"""
@@ -359,6 +388,7 @@ def run_shard(sh):
   kind = sh.params["kind"]
   if sh.idx == 0: check_struct_operand(sh)
   if sh.idx == 1: check_rejected_assignments(sh)
+  if sh.idx == 2: check_struct_source(sh)
   {"exh": run_exh, "rand": run_rand, "sim": run_sim}[kind](sh)
   cells = sum(1 for k in bitsmon.STATS if k.startswith("cell:"))
   bitsmon.drain(sh, mech=None)
